@@ -240,7 +240,7 @@ Definition connect_tail (add : add_res) (known : bool) (r : result) : list effec
    blocking theorems of other files use -- does not depend on that answer *)
 Definition connect (add : add_res) (r : result) : list effect := connect_tail add true r.
 
-(* before commit db8f6a6 Connect did not ask getPeer: it told its caller "connected" although
+(* before commit ad08637 Connect did not ask getPeer: it told its caller "connected" although
    nothing was (or remained) registered *)
 Definition connect_tail_v1 (add : add_res) (known : bool) (r : result) : list effect := connect add r.
 
